@@ -10,9 +10,10 @@ Strings are lower-case hex (`-` = empty string).
            b~<name>~<deps>          bundle
            f~<name>~<files>~<incs>  file_set with explicit files and includes
            s~<dirs>                 sub_builds
+           x~<kind>~<n>             n statements jsonx rejects (kind: how they are malformed)
            lists inside a declaration are `+` separated, `.` = empty
 
-  -> failed <classes>    sorted set of {noName, empty, dup, cycle, dangling}
+  -> failed <classes>    sorted set of {noName, syntax, empty, dup, cycle, dangling}
    | built <L>           BUILD lines in order
    | outOfFuel           the loader does not terminate
 -/
@@ -46,6 +47,7 @@ def parseDecl (w : String) : Option Decl :=
   | ["s", ds] => do
     let ds ← parseList "+" ds
     pure (.sub ds)
+  | ["x", _, n] => n.toNat?.map .garbage
   | _ => none
 
 def parseFile (w : String) : Option (Str × List Decl) :=
@@ -61,13 +63,14 @@ def parseFiles (w : String) : Option (List (Str × List Decl)) :=
 
 def errClass : LErr → String
   | .noName _ => "noName"
+  | .syntax _ => "syntax"
   | .emptyName => "empty"
   | .dup _ => "dup"
   | .cycle _ _ => "cycle"
   | .dangling _ => "dangling"
 
 def classes (errs : List LErr) : String :=
-  let cs := ["cycle", "dangling", "dup", "empty", "noName"].filter (fun c => errs.any (fun e => errClass e = c))
+  let cs := ["cycle", "dangling", "dup", "empty", "noName", "syntax"].filter (fun c => errs.any (fun e => errClass e = c))
   ",".intercalate cs
 
 def fuelDefault : Nat := 4000
